@@ -273,7 +273,7 @@ func cdxProjFor(v15 bool) func(n *sbom.Node, wildcard bool) proj {
 		v22, has22 := n.Identifiers[2]
 		switch {
 		case has23 && has22 && wildcard:
-			p["cpe"] = v23 + "\x01" + v22 // CycloneDX holds one CPE: which of the two survives is the serializer's choice
+			p["cpe"], p["cpe_alt"] = v23, v22 // CycloneDX holds one CPE: which of the two survives is the serializer's choice
 		case has23:
 			p["cpe"] = v23
 		default:
@@ -334,9 +334,12 @@ func compareDocsCDX(want, got *sbom.Document, pf func(n *sbom.Node, wildcard boo
 				}
 				continue
 			}
-			if k == "cpe" && strings.Contains(w[k], "\x01") {
-				if parts := strings.SplitN(w[k], "\x01", 2); g[k] != parts[0] && g[k] != parts[1] {
-					return fmt.Errorf("node %q: CPE came back as %q, want one of %q", n.Id, g[k], parts)
+			if k == "cpe_alt" {
+				continue
+			}
+			if alt, both := w["cpe_alt"]; k == "cpe" && both {
+				if g[k] != w[k] && g[k] != alt {
+					return fmt.Errorf("node %q: CPE came back as %q, want one of %q / %q", n.Id, g[k], w[k], alt)
 				}
 				continue
 			}
